@@ -150,6 +150,27 @@ def observe(x):
         return ['I', [H(i) for i in x], [[] for _ in x]]
     return ['?' + type(x).__name__, [], []]
 
+def canon_ties(o, before):
+    """sort_index leaves the order of rows that share a timestamp unspecified: put each such group in the order in which the
+    rows are stored in the input (rows are matched by timestamp and cells; the comparison is a multiset comparison per timestamp)"""
+    pool = {}
+    for i, (t, r) in enumerate(zip(before[1], before[2])):
+        pool.setdefault((t, repr(r)), []).append(i)
+    keyed = []
+    for pos, (t, r) in enumerate(zip(o[1], o[2])):
+        idxs = pool.get((t, repr(r)))
+        keyed.append(((t, idxs.pop(0)) if idxs else (t, 10 ** 9 + pos), t, r))
+    out_t, out_r = [], []
+    j = 0
+    while j < len(keyed):
+        e = j
+        while e < len(keyed) and keyed[e][1] == keyed[j][1]:
+            e += 1
+        for _, t, r in sorted(keyed[j:e], key=lambda q: q[0]):
+            out_t.append(t); out_r.append(r)
+        j = e
+    return [o[0], out_t, out_r]
+
 # ---- property text as plain loops
 def closed(ch):
     return ch in '[]cC'
@@ -243,6 +264,9 @@ def impl(case):
             ok = (not valid) and parsed and name == 'ValueError'
             return {'status': name, 'obs': ['ERR', name], 'viol': None if ok else 'df_slice raised %s: %s' % (name, str(e)[:100])}
         o = observe(r)
+        wrap = bool(case['lb'] and case['ub'] and case['lb'][0] == 'tod' and case['ub'][0] == 'tod' and case['lb'][1] > case['ub'][1])
+        if wrap and parsed:
+            o = canon_ties(o, before)
         if observe(x) != before:
             viol = 'df_slice modified its argument'
         elif o[0] != case['form']:
@@ -257,6 +281,8 @@ def impl(case):
             viol = 'malformed bracket string %r accepted' % (oc,)
         else:
             keep = [i for i, t in enumerate(case['ts']) if not parsed or in_window(t, case['lb'], case['ub'], oc_eff)]
+            if wrap and parsed:      # the two half windows are concatenated and put in time order; rows sharing a timestamp: any order
+                keep = sorted(keep, key=lambda i: (case['ts'][i], i))
             exp = [[case['ts'][i] for i in keep], [before[2][i] for i in keep]]
             if o[1:] != exp:
                 viol = ('df_slice(index %r, lb=%r, ub=%r, %r) kept index %r values %r; the rows inside the window are %r %r'
@@ -348,7 +374,7 @@ def shape(case):
         oc = case.get('oc')
         ocs = 'default' if oc is None else (oc if oc in BRACKETS else ('alias' if len(oc) == 2 and all(c in 'oOcC()[]' for c in oc) else 'malformed'))
         wrap = ':wrap' if (case['lb'] and case['ub'] and case['lb'][0] == 'tod' and case['ub'][0] == 'tod' and case['lb'][1] > case['ub'][1]) else ''
-        return 'slice:%s:%s:%s%s%s%s%s' % (f(case['lb']), f(case['ub']), ocs, wrap, ':us' if case.get('unit') == 'us' else '', ':long' if case.get('long') else '', ':index' if case['form'] == 'I' else '')
+        return 'slice:%s:%s:%s%s%s%s%s' % (f(case['lb']), f(case['ub']), ocs, wrap, ':us' if case.get('unit') == 'us' else '', ':long' if case.get('long') else '', ':index' if case['form'] == 'I' else '') + (':' + case['order'] if case.get('order') else '')
     if case['kind'] == 'stitch':
         l = case['lbs'] if case['mode'] == 'lb' else case['ubs']
         return 'stitch:%s:%s:n%d%s' % (case['mode'], 'inc' if _dir(l) else 'dec', min(case['n'], 3), ':single' if case.get('single') else '')
@@ -467,6 +493,29 @@ def gen_cases(rng, tier):
         lb = rng.choice([None, ['tod', a], ['tod', a], ['at', rng.choice(ts) + rng.choice([0, 1, -1])]])
         ub = rng.choice([None, ['tod', b], ['tod', b], ['at', rng.choice(ts) + rng.choice([0, 1, -1])]])
         cases.append(slice_case(ts, k, form, lb, ub, rng.choice(BRACKETS + [None]), unit='us'))
+    # G. index stored out of time order (shuffled, newest first) and / or with repeated timestamps (2-3 rows per stamp,
+    #    distinct values): dates and times of day, bounds on / between points, all four brackets, single and wrap-around windows
+    for _ in range(1500 if quick else 25000):
+        base = rand_index(rng, rng.choice([2, 3, 4, 6, 8]))
+        mode = rng.choice(['shuffle', 'desc', 'dup', 'dup', 'dup+shuffle', 'dup+desc'])
+        ts = list(base)
+        if 'dup' in mode:
+            for t0 in rng.sample(base, rng.randrange(1, min(3, len(base)) + 1)):
+                ts += [t0] * rng.choice([1, 1, 2])
+            ts.sort()
+        if 'shuffle' in mode: rng.shuffle(ts)
+        if 'desc' in mode: ts = ts[::-1]
+        form = rng.choice(['S', 'D']); k = 1 if form == 'S' else 2
+        vals = [[100 * (j + 1) + i if (j == 0 or rng.random() < 0.8) else None for j in range(k)] for i in range(len(ts))]
+        def bnd():
+            q = rng.random()
+            if q < 0.15: return None
+            if q < 0.6: return ['at', rng.choice(ts) + rng.choice([0, 0, 0, 3, -3])]
+            return ['tod', rng.choice([0, 6, 12, 18, rng.choice(ts) % 24, 3, 21])]
+        lb, ub = bnd(), bnd()
+        if rng.random() < 0.25:
+            a, b = sorted(rng.sample([0, 3, 6, 12, 18, 21], 2)); lb, ub = ['tod', b], ['tod', a]      # wrap-around
+        cases.append(decorate(rng, slice_case(ts, k, form, lb, ub, rng.choice(BRACKETS + BRACKETS + [None]), vals, order=mode)))
     # C. stitching
     for _ in range(1500 if quick else 25000):
         m = rng.choice([1, 2, 2, 3, 3, 4, 4, 6, 8])
